@@ -1,4 +1,5 @@
 import Glas.Lemmas.Collect
+import Glas.Lemmas.CollectAcyclic
 /-!
 # C10 (mechanism "occurs-free unification relies on a placeholder to stay finite on cyclic types"):
 # `Collector::collect` answers on EVERY table
@@ -14,6 +15,8 @@ signature help print such types; they end because the collector marks a class *b
 * `collect_caches`, `collect_again` - the class is finished afterwards; asking again returns the same type
   and changes nothing.
 * `collectAll_total` - any sequence of requests to one collector (what `finish_infer` does).
+* `collect_acyclic`, `collectAll_acyclic` - on a table without cyclic types (a height function decreases from every class
+  to its children) no answer contains the placeholder: `?` in a displayed type is the mark of a cycle and of nothing else.
 * `order_matters` - a three-node cyclic table on which the type of a variable depends on which variable the
   collector was asked for first (kernel-evaluated).  `finish_infer` walks a `HashMap` of std's random state,
   so this is the mechanism of the recorded finding `C11/inference-order-in-recursion-group`.
@@ -114,6 +117,140 @@ theorem collectAll_total (tbl : Table N) (hwf : WF tbl) (hcl : Closed tbl) :
     obtain ⟨ts, st2, h2, hlen⟩ := ih st' (t :: acc) (fun y hy => hx y (by simp [hy])) hl'
     refine ⟨ts, st2, ?_, by simp at hlen ⊢; omega⟩
     simp only [collectAll, h, h2]
+
+/-! ### acyclic tables: the placeholder never shows -/
+
+theorem setCache_get_ne (st : St) (i j : Nat) (t : T) (h : i ≠ j) :
+    (setCache st i t).cache[j]? = st.cache[j]? := by
+  simp [setCache, List.getElem?_set_ne h]
+
+theorem InvGe.mono {h : Nat → Nat} {st : St} {a b : Nat} (hi : InvGe h st a) (hab : b ≤ a) : InvGe h st b := by
+  intro j t e
+  rcases hi j t e with g | g
+  · exact Or.inl g
+  · exact Or.inr (by omega)
+
+/-- the induction: on an acyclic table, below `fuel` pending classes and with every placeholder-carrying entry
+strictly above the class asked for, the answer is placeholder-free and the state only gains placeholder-free entries -/
+theorem collect_acyclic_ok (tbl : Table N) (hwf : WF tbl) (hcl : Closed tbl) (h : Nat → Nat)
+    (hac : Acyclic tbl h) :
+    ∀ fuel x st, x < tbl.length → st.cache.length = tbl.length → pending st < fuel →
+      InvGe h st (h (rootOf tbl x) + 1) →
+      ∃ t st', collect tbl fuel x st = .ok t st' ∧ Step tbl.length st st' ∧ noUnk t = true ∧ Frame st st' := by
+  intro fuel
+  induction fuel with
+  | zero => intro x st _ _ hp; omega
+  | succ fuel ih =>
+    intro x st hx hl hp hinv
+    have hr := rootOf_lt hwf hx
+    have hroot : parentOf tbl (rootOf tbl x) = rootOf tbl x := root_fuelOf_isRoot hwf x
+    obtain ⟨node, hnode⟩ := rootOf_val hwf hx
+    have hget : ∃ c, st.cache[rootOf tbl x]? = some c := by
+      rw [List.getElem?_eq_getElem (by omega)]; exact ⟨_, rfl⟩
+    obtain ⟨c, hc⟩ := hget
+    cases c with
+    | some t =>
+      refine ⟨t, st, ?_, ⟨hl, Nat.le_refl _⟩, ?_, Frame.refl st⟩
+      · simp only [collect, hx, if_true, hc]
+      · rcases hinv _ t hc with g | g
+        · exact g
+        · omega
+    | none =>
+      have hp1 := setCache_pending_of_none st (rootOf tbl x) .unknown hc
+      have hl1 : (setCache st (rootOf tbl x) .unknown).cache.length = tbl.length := by
+        rw [setCache_length]; exact hl
+      have hinv1 : InvGe h (setCache st (rootOf tbl x) .unknown) (h (rootOf tbl x)) := by
+        intro j t e
+        by_cases hj : rootOf tbl x = j
+        · subst hj; exact Or.inr (Nat.le_refl _)
+        · rw [setCache_get_ne _ _ _ _ hj] at e
+          rcases hinv j t e with g | g
+          · exact Or.inl g
+          · exact Or.inr (by omega)
+      have hrec : RecOk2 tbl h (pending (setCache st (rootOf tbl x) .unknown)) (h (rootOf tbl x)) (collect tbl fuel) := by
+        intro y sty hy hly hpy hlt hiy
+        exact ih y sty hy hly (by omega) (InvGe.mono (a := h (rootOf tbl x)) hiy (by omega))
+      have hch : ∀ c ∈ node.children, c < tbl.length ∧ h (rootOf tbl c) < h (rootOf tbl x) :=
+        fun c hc' => ⟨hcl _ node hnode c hc', hac _ node hr hroot hnode c hc'⟩
+      obtain ⟨t, st', h1, s1, n1, f1⟩ := collectNode_ok2 tbl h _ _ (collect tbl fuel) hrec node
+        (setCache st (rootOf tbl x) .unknown) hch hl1 (Nat.le_refl _) hinv1
+      refine ⟨t, setCache st' (rootOf tbl x) t, ?_, ⟨?_, ?_⟩, n1, ?_⟩
+      · simp only [collect, hx, if_true, hc, hnode, h1]
+      · rw [setCache_length]; exact s1.len
+      · have := setCache_pending_le st' (rootOf tbl x) t
+        have := s1.pend
+        omega
+      · intro j t' e
+        by_cases hj : rootOf tbl x = j
+        · subst hj
+          rw [setCache_get st' _ t (by rw [s1.len]; exact hr)] at e
+          cases e
+          exact Or.inl n1
+        · rw [setCache_get_ne _ _ _ _ hj] at e
+          rcases f1 j t' e with g | g
+          · exact Or.inl g
+          · rw [setCache_get_ne _ _ _ _ hj] at g
+            exact Or.inr g
+
+/-- every entry of the cache is placeholder-free -/
+def Clean (st : St) : Prop := ∀ (j : Nat) (t : T), st.cache[j]? = some (some t) → noUnk t = true
+
+theorem initSt_clean (tbl : Table N) : Clean (initSt tbl) := by
+  intro j t e
+  simp only [initSt] at e
+  rw [List.getElem?_replicate] at e
+  split at e <;> simp at e
+
+/-- **the placeholder is the mark of a cycle, and of nothing else**: on a table without cyclic types (what
+well-typed code produces) a collector whose cache is placeholder-free answers with a placeholder-free type and
+stays placeholder-free -/
+theorem collect_acyclic (tbl : Table N) (hwf : WF tbl) (hcl : Closed tbl) (h : Nat → Nat) (hac : Acyclic tbl h)
+    (x : Nat) (st : St) (hx : x < tbl.length) (hl : st.cache.length = tbl.length) (hclean : Clean st) :
+    ∃ t st', collect tbl (fuelFor tbl) x st = .ok t st' ∧ noUnk t = true ∧ Clean st' ∧
+      st'.cache.length = tbl.length := by
+  have hp : pending st < fuelFor tbl := by
+    have : pending st ≤ st.cache.length := by
+      simp only [pending]; exact List.length_filter_le _ _
+    unfold fuelFor; omega
+  obtain ⟨t, st', h1, s1, n1, f1⟩ := collect_acyclic_ok tbl hwf hcl h hac _ x st hx hl hp
+    (fun j t e => Or.inl (hclean j t e))
+  refine ⟨t, st', h1, n1, ?_, s1.len⟩
+  intro j t' e
+  rcases f1 j t' e with g | g
+  · exact g
+  · exact hclean j t' g
+
+/-- ... for any sequence of requests to one collector, starting from `Collector::new` -/
+theorem collectAll_acyclic (tbl : Table N) (hwf : WF tbl) (hcl : Closed tbl) (h : Nat → Nat) (hac : Acyclic tbl h) :
+    ∀ (xs : List Nat) (st : St) (acc : List T), (∀ x ∈ xs, x < tbl.length) → st.cache.length = tbl.length →
+      Clean st → (∀ t ∈ acc, noUnk t = true) →
+      ∃ ts st', collectAll tbl xs st acc = .ok ts st' ∧ ∀ t ∈ ts, noUnk t = true := by
+  intro xs
+  induction xs with
+  | nil =>
+    intro st acc _ _ _ hacc
+    exact ⟨acc.reverse, st, rfl, fun t ht => hacc t (by simpa using ht)⟩
+  | cons x xs ih =>
+    intro st acc hx hl hc hacc
+    obtain ⟨t, st', h1, n1, c1, l1⟩ := collect_acyclic tbl hwf hcl h hac x st (hx x (by simp)) hl hc
+    obtain ⟨ts, st2, h2, n2⟩ := ih st' (t :: acc) (fun y hy => hx y (by simp [hy])) l1 c1
+      (fun u hu => by
+        rcases List.mem_cons.mp hu with rfl | hu
+        · exact n1
+        · exact hacc u hu)
+    refine ⟨ts, st2, ?_, n2⟩
+    simp only [collectAll, h1, h2]
+
+/-- non-vacuity: `v0 = List(v1)`, `v1 = #(v2, v2)`, `v2 = Int` is acyclic (height = 2, 1, 0) -/
+def acyclicExample : Table N :=
+  [{ val := some (.list 1), parent := 0, rank := 0 },
+   { val := some (.tuple [2, 2]), parent := 1, rank := 0 },
+   { val := some (.base 2), parent := 2, rank := 0 }]
+
+example : (match collectAll acyclicExample [1, 0, 2] (initSt acyclicExample) [] with
+           | .ok ts _ => ts | _ => []) =
+    [.tuple (.acons (.base 2) (.acons (.base 2) .anil)), .list (.tuple (.acons (.base 2) (.acons (.base 2) .anil))), .base 2] := by
+  decide
 
 /-! ### the tables the hypotheses speak about exist, and cyclic ones are among them -/
 
